@@ -63,6 +63,17 @@ ALPHABET = [
     'alter type default::B alter link many reset expression',
     'alter type default::B alter link many set single using (select .many limit 1)',
     'alter type default::B alter link many set multi',
+    # two storage-relevant changes inside ONE alter block (sub-commands see
+    # the schema from before the block as their original schema)
+    'alter type default::B alter link many { drop property note; set single using (select .many limit 1) }',
+    'alter type default::B alter link many { set single using (select .many limit 1); drop property note }',
+    'alter type default::B alter link a { create property w: int64; set multi }',
+    'alter type default::B alter link a { set multi; create property w: int64 }',
+    'alter type default::B alter link a { drop property w; set multi }',
+    'alter type default::B alter link many { create property extra: str; set single using (select .many limit 1) }',
+    'alter type default::B { alter link a set multi; alter link a create property w: int64 }',
+    'alter type default::A { alter property name set multi; create property age: int64 }',
+    'alter type default::A { alter property name set multi; alter property name set single using (select .name limit 1) }',
     'alter type default::B create multi property tags: str',
     'alter type default::B drop property tags',
     'alter type default::B extending default::P',
@@ -358,7 +369,8 @@ def compare(schema, cat):
             continue
         missing = cols - user[t]
         if missing:
-            diffs.append(('missing-columns', tn(t), tuple(sorted(missing))))
+            diffs.append(('missing-columns', tn(t), tuple(sorted(
+                nm.get(c, c) for c in missing))))
     for t in user:
         if t not in exp:
             diffs.append(('orphan-table', tn(t)))
